@@ -17,7 +17,7 @@ EXPLANATION = (
     "(iv) no container is modified while being iterated in tick-reachable code; (v) tick-reachable "
     "code opens cgroup files only relative to a held directory fd except at the enumerated path-based "
     "sites, so a vanished/re-created cgroup yields an error, not another cgroup's data; (vi) the "
-    "abort sites reachable from the tick are the enumerated ones; (vii) no thread started from tick "
+    "abort sites reachable from the tick are the enumerated ones; (vii) a struct filled by a stat-family call is read only on that call's success edge; no thread started from tick "
     "code lets an exception leave its entry; (viii) loop progress: in tick-reachable code every loop "
     "whose condition depends on local state only changes some loop-carried local on every iteration "
     "path (a non-advancing 'continue' would spin for ever), with one audited path in Senpai::run that "
@@ -231,6 +231,25 @@ def run(ctx):
                       creator.pq, "; ".join("%s at %s" % (s.what, s.loc()) for s, _ in esc[:3])), esc[0][1] if esc else None)
     ctx.counters["tick_helper_threads"] = n_thr
     ctx.floor("tick_helper_threads", 1, "threads started from tick code (Senpai timed_invoke)")
+    # ------------------------------------------------ (i-c) a stat buffer is read only where the call that fills it succeeded
+    from ..misc import stat_buffer_reads
+    n_stat = 0
+    for f in sorted(P.fns.values(), key=lambda x: (x.file, x.line)):
+        if not f.file.startswith("oomd/") or f.usr not in tick_fns:
+            continue
+        res, n_c = stat_buffer_reads(P, cg, f)
+        n_stat += n_c
+        if n_c:
+            ctx.use(f)
+        for i, bname, bad in res:
+            ctx.violation("stat-buffer-read-only-on-success:%s:%s" % (short(f), bname), "def-use (out-parameter of a failing call)", f.loc(bad[0][0]),
+                          "'%s' is filled by %s, but it is read at %s on a path where that call may have failed (e.g. the entry vanished between readdir and "
+                          "fstatat): the fields are indeterminate - undefined behaviour, in practice the previous entry's type" % (
+                              bname, f.text(i)[:60], ", ".join(f.loc(x) for x, _ in bad[:3])), ["guards at %s: %s" % (f.loc(bad[0][0]), bad[0][1])])
+        if n_c and not res:
+            ctx.ok("stat-buffer-read-only-on-success:" + short(f), "def-use (out-parameter of a failing call)", f.loc(), "every read of the stat buffer is dominated by the call's success")
+    ctx.counters["stat_family_calls_in_tick"] = n_stat
+    ctx.floor("stat_family_calls_in_tick", 2, "stat-family calls with a local buffer in tick-reachable code (readDirFromDIR, Fd::inode)")
     # ------------------------------------------------ (i-b) no hang by a non-advancing iteration (loop progress)
     from ..misc import loop_progress
     n_loops = 0
